@@ -416,7 +416,7 @@ class Gen:
                       patterns=[z3.MultiPattern(self.E(k, i), s.at(s.kids(p), c))])
 
     def enum(self, k):
-        """L-enum: every position of G_{k+1} has a source (a counting argument on paper; stated as part of the definition of the ghosts)"""
+        """L-enum: every position of G_{k+1} has a source (proved by induction: enum_lemma below; SI / SC are its skolem witnesses)"""
         s = self.s
         j = z3.Int("ge_j")
         si, sc = self.SI(k + 1, j), self.SC(k + 1, j)
@@ -511,7 +511,7 @@ def install_find_all_nodes_by_path(w):
                    mod=lambda s0, r, **kw: z3.BoolVal(False),
                    assumptions=("T-unfold(gen_len, gen_elem, gen_offset, count_named)",
                                 "L-empty-generation: proved by induction (obligations C09/lemma:empty-generation/*)",
-                                "L-enum: every position of a generation has a source position (counting argument; part of the ghosts' definition, not machine-checked)"))
+                                "L-enum: every position of a generation has a source position — proved by two nested inductions (obligations C09/lemma:enum/*)"))
     w.add(con)
     vt = {"name": "str", "node": "Node", "current_list": "list:Node", "next_generation": "list:Node"}
     w.loop(Q_PATHN, 1, inv=outer_inv, axioms=outer_axioms, var_types=vt)
@@ -538,4 +538,60 @@ def empty_generation_lemma():
         sol.add(z3.Not(goal))
         t0 = time.time()
         out.append((nm, sol.check() == z3.unsat, time.time() - t0))
+    return out
+
+
+def enum_lemma():
+    """L-enum by two nested inductions, each step split into its two cases so that every obligation is a ground implication with an explicit
+    witness (the induction principle over the naturals is applied here, outside the solver).
+
+    inner (over K <= #children of a node p):   for all t with 0 <= t < CNT(p, x, K) there is c < K with  child c named x  and  CNT(p, x, c) = t
+    outer (over I <= GL(k)):                   for all j with 0 <= j < OFF(k, I) there are i < I and c < #children(GE(k, i)) with  child c of GE(k, i) named x
+                                               and  j = OFF(k, i) + CNT(GE(k, i), x, c)
+    With I = GL(k) and OFF(k, GL(k)) = GL(k+1) the outer statement is Gen.enum(k).   -> [(name, proved?, seconds)]"""
+    import time
+    from pyvc.core import Heap, SV
+    s = SV(Heap())
+    p, K, t, n, path, k, I_, j = z3.Ints("le_p le_K le_t le_n le_path le_k le_I le_j")
+    x = z3.String("le_x")
+    f = z3.Function("le_ih_child", I, I)                 # induction hypothesis of the inner lemma, skolemised: the witness for t
+    match = lambda node, c: s.name(s.kid(node, c)) == x
+    out = []
+
+    def check(nm, hyps, goal):
+        t0 = time.time()
+        vac = z3.Solver()
+        vac.set("timeout", 10000)
+        vac.add(*hyps)
+        if vac.check() != z3.sat:           # vacuity guard: contradictory hypotheses would prove anything
+            out.append((nm, False, time.time() - t0))
+            return
+        sol = z3.Solver()
+        sol.set("timeout", 10000)
+        sol.add(*hyps)
+        sol.add(z3.Not(goal))
+        out.append((nm, sol.check() == z3.unsat, time.time() - t0))
+
+    cnt_defs = [CNT(s, p, x, 0) == 0, CNT(s, p, x, K + 1) == CNT(s, p, x, K) + z3.If(match(p, K), 1, 0)]
+    ih_inner = z3.Implies(z3.And(0 <= t, t < CNT(s, p, x, K)), z3.And(0 <= f(t), f(t) < K, match(p, f(t)), CNT(s, p, x, f(t)) == t))
+    good = lambda c, bound: z3.And(0 <= c, c < bound, match(p, c), CNT(s, p, x, c) == t)
+    check("inner/base", cnt_defs, z3.Not(z3.And(0 <= t, t < CNT(s, p, x, 0))))
+    check("inner/step:witness-from-the-hypothesis", cnt_defs + [K >= 0, ih_inner, 0 <= t, t < CNT(s, p, x, K)], good(f(t), K + 1))
+    check("inner/step:the-new-child-is-the-witness", cnt_defs + [K >= 0, CNT(s, p, x, K) >= 0, 0 <= t, t < CNT(s, p, x, K + 1), z3.Not(t < CNT(s, p, x, K))], good(K, K + 1))
+
+    G = Gen(s, n, path)
+    xk = G.x(k)
+    gi = z3.Function("le_ih_parent", I, I)
+    gc = z3.Function("le_ih_child2", I, I)
+    inner_w = z3.Function("le_inner_witness", I, I)       # the inner lemma, applied to the parent GE(k, I) with K = its number of children
+    par = lambda i: Val.r(G.E(k, i))
+    ok = lambda i, c, bound: z3.And(0 <= i, i < bound, 0 <= c, c < s.nkids(par(i)), s.name(s.kid(par(i), c)) == xk, j == G.OFF(k, i) + CNT(s, par(i), xk, c))
+    off_defs = [G.OFF(k, 0) == 0, G.OFF(k, I_ + 1) == G.OFF(k, I_) + CNT(s, par(I_), xk, s.nkids(par(I_)))]
+    ih_outer = z3.Implies(z3.And(0 <= j, j < G.OFF(k, I_)), ok(gi(j), gc(j), I_))
+    tt = j - G.OFF(k, I_)
+    inner_inst = z3.Implies(z3.And(0 <= tt, tt < CNT(s, par(I_), xk, s.nkids(par(I_)))),
+                            z3.And(0 <= inner_w(tt), inner_w(tt) < s.nkids(par(I_)), s.name(s.kid(par(I_), inner_w(tt))) == xk, CNT(s, par(I_), xk, inner_w(tt)) == tt))
+    check("outer/base", off_defs, z3.Not(z3.And(0 <= j, j < G.OFF(k, 0))))
+    check("outer/step:witness-from-the-hypothesis", off_defs + [I_ >= 0, ih_outer, 0 <= j, j < G.OFF(k, I_)], ok(gi(j), gc(j), I_ + 1))
+    check("outer/step:the-new-parent-holds-the-witness", off_defs + [I_ >= 0, inner_inst, 0 <= j, j < G.OFF(k, I_ + 1), z3.Not(j < G.OFF(k, I_))], ok(I_, inner_w(tt), I_ + 1))
     return out
